@@ -282,6 +282,8 @@ func runC18(c *Check) {
 	ruleConfigWritersTruncate(c, p)
 	c.Doc("C18-R6", "EO+VP: the flag visitor binds every visited flag itself to the configuration key (BindPFlag on every normal path, with the visited flag), so that a flag given on the command line always outranks the file.")
 	ruleEveryFlagBound(c, p)
+	c.Doc("C18-R8", "EO+CS: every loader pins the file it reads (SetConfigFile before ReadInConfig) to the path the writer uses: the same constant path elements under the home directory as Config.ConfigPath (no search over names, extensions or expanded directories).")
+	ruleLoaderReadsWrittenFile(c, p)
 	c.Doc("C18-R7", "CS: the text encoder and decoder of every configuration leaf type with its own text codec are an inverse pair of the standard library applied to the whole value, with no transformation in between (what is written is what is read).")
 	ruleTextCodecsInverse(c, p)
 }
@@ -531,4 +533,84 @@ func ruleConfigWritersTruncate(c *Check, p *Prog) {
 	if n < 2 {
 		c.Unk(rule, "file-writers", "", "", fmt.Sprintf("anchor lost: %d file writers in pkg/config and pkg/genesis", n))
 	}
+}
+
+// ruleLoaderReadsWrittenFile (C18-R8).
+func ruleLoaderReadsWrittenFile(c *Check, p *Prog) {
+	rule := "C18-R8"
+	// the constant elements handed directly to the outermost filepath.Join of the path
+	constElems := func(t *Term) []string {
+		var out []string
+		var join *Term
+		t.Walk(func(x *Term) bool {
+			if join == nil && x.IsCall("path/filepath.Join") {
+				join = x
+			}
+			return join == nil
+		})
+		if join == nil {
+			return nil
+		}
+		for _, a := range join.Args {
+			elems := []*Term{a}
+			if a.Op == "list" {
+				elems = a.Args
+			}
+			for _, e := range elems {
+				if e.Op == "const" && strings.HasPrefix(e.Name, "\"") {
+					out = append(out, e.Name)
+				}
+			}
+		}
+		return out
+	}
+	// the writer's path: the constant elements of ConfigPath
+	var want []string
+	for _, fn := range p.Funcs {
+		pk := fnPkg(fn)
+		if pk == nil || pk.Pkg.Path() != configPkg || fn.Name() != "ConfigPath" || fn.Parent() != nil {
+			continue
+		}
+		for _, b := range fn.Blocks {
+			if r, ok := b.Instrs[len(b.Instrs)-1].(*ssa.Return); ok && len(r.Results) == 1 {
+				want = constElems(TermOf(r.Results[0], &Ctx{Fn: fn}))
+			}
+		}
+	}
+	if len(want) == 0 {
+		c.Unk(rule, "writer-path", "", "", "anchor lost: Config.ConfigPath does not join constant path elements")
+		return
+	}
+	n := 0
+	for _, fn := range p.Funcs {
+		pk := fnPkg(fn)
+		if pk == nil || pk.Pkg.Path() != configPkg || fn.Parent() != nil || !callsNamed(fn, func(nm string) bool { return strings.HasSuffix(nm, "viper.Viper).ReadInConfig") }) {
+			continue
+		}
+		g := BuildECFG(p, fn, ExpandOpts{MaxDepth: 0})
+		c.NoteGraph(g)
+		for _, rd := range g.Select(func(x *Node) bool { return strings.HasSuffix(CallName(x), "viper.Viper).ReadInConfig") }) {
+			rd := rd
+			n++
+			recv := RecvTerm(rd).String()
+			pins := g.Select(func(x *Node) bool {
+				if !strings.HasSuffix(CallName(x), "viper.Viper).SetConfigFile") || RecvTerm(x).String() != recv {
+					return false
+				}
+				got := constElems(ArgTerm(x, 1))
+				return strings.Join(got, "/") == strings.Join(want, "/")
+			})
+			inst := fnShort(fn) + " ⟂ reads-the-file-the-writer-writes"
+			if len(pins) == 0 {
+				c.Bad(rule, inst, fnName(fn), p.InstrPos(rd.In), "the loader does not pin the configuration file to <home>/"+strings.ReplaceAll(strings.Join(want, "/"), "\"", "")+" (SetConfigFile): it searches by name, so another file (evnode.json, evnode.toml, an expanded directory) can shadow the one SaveAsYaml wrote, silently", nil)
+				continue
+			}
+			c.Decide(rule, inst, fnName(fn), p.InstrPos(rd.In), "the file is pinned to the writer's path before it is read",
+				"the configuration can be read before the file is pinned to the writer's path", g, g.PathAvoiding([]*Node{g.Entry}, func(x *Node) bool { return x == rd }, nodeSet(pins)))
+		}
+	}
+	if n == 0 {
+		c.Unk(rule, "loaders", "", "", "anchor lost: no function of the configuration package reads a configuration file")
+	}
+	c.MinInstances(rule, 2)
 }
